@@ -97,12 +97,12 @@ func c12Main(fl *evid.Flags) int {
 	tIso := time.Since(start)
 	phaseEnumeration(run, env, evid.Tiered(fl.Tier, 2, 12))
 	tEnum := time.Since(start)
-	phaseRandom(run, env, evid.Tiered(fl.Tier, 6, 100), evid.Tiered(fl.Tier, 8, 15))
+	phaseRandom(run, env, evid.Tiered(fl.Tier, 6, 200), evid.Tiered(fl.Tier, 8, 15))
 	phaseConflist(run, env)
 	tRand := time.Since(start)
 	shards, gor, rounds := 2, 12, 6
 	if thorough {
-		shards, gor, rounds = 12, 32, 40
+		shards, gor, rounds = 24, 32, 40
 	}
 	c12ConcurrentChildren(run, env, fl, shards, gor, rounds)
 	run.Set("phase_wall_s", map[string]float64{"isolation": tIso.Seconds(), "enumeration": (tEnum - tIso).Seconds(),
